@@ -4,7 +4,7 @@
 // license that can be found in the LICENSE file or at
 // https://opensource.org/licenses/MIT.
 
-use onig::{Regex, RegexOptions, Syntax};
+use onig::{MatchParam, Regex, RegexOptions, SearchOptions, Syntax};
 
 /// Parse a string as a POSIX Basic Regular Expression.
 fn parse_bre(expr: &str, options: RegexOptions) -> Result<Regex, onig::Error> {
@@ -119,7 +119,13 @@ fn glob_to_regex(pattern: &str) -> Option<String> {
         // https://pubs.opengroup.org/onlinepubs/9699919799/utilities/V3_chap02.html#tag_18_13
         match ch {
             '?' => regex.push('.'),
-            '*' => regex.push_str(".*"),
+            '*' => {
+                // Consecutive stars mean the same as one, but each extra ".*"
+                // multiplies the backtracking the matcher may have to do.
+                if !regex.ends_with(".*") {
+                    regex.push_str(".*");
+                }
+            }
             '\\' => {
                 if let Some(ch) = chars.next() {
                     regex_push_literal(&mut regex, ch);
@@ -170,7 +176,20 @@ impl Pattern {
 
     /// Test if this pattern matches a string.
     pub fn matches(&self, string: &str) -> bool {
-        self.regex.as_ref().is_some_and(|r| r.is_match(string))
+        // Not `Regex::is_match`: it panics when the matcher gives up (e.g. on
+        // its backtracking limit). Such a subject is reported as not matching.
+        self.regex.as_ref().is_some_and(|r| {
+            matches!(
+                r.match_with_param(
+                    string,
+                    0,
+                    SearchOptions::SEARCH_OPTION_NONE,
+                    None,
+                    MatchParam::default(),
+                ),
+                Ok(Some(len)) if len == string.len()
+            )
+        })
     }
 }
 
